@@ -1300,7 +1300,7 @@ class DriverSCIRS232(DriverSerialBase):
                     f"SCI RS232 RX info DALI queue not empty! {qlen} items in queue!"
                 )
                 try:
-                    item = self._queue_rx_raw_dali.get_nowait()
+                    item = self._queue_rx_info.get_nowait()
                     _LOG.critical(f"SCI RS232 RX info DALI queue discarding: {item}")
                 except asyncio.QueueEmpty:
                     pass
